@@ -928,6 +928,10 @@ fn touch<T: Corp>() {
     let _ = T::ty();
 }
 
+pub type W4<T> = Vec<Vec<Vec<Vec<T>>>>;
+pub type W16<T> = W4<W4<W4<W4<T>>>>;
+pub type W64<T> = W16<W16<W16<W16<T>>>>;
+
 macro_rules! entry {
     ($t:ty) => {
         Entry {
@@ -1073,6 +1077,11 @@ pub fn all() -> Vec<Entry> {
     v.push(entry!(Generic<Nat, Generic<bool, Int>>));
     v.push(entry!(Pair<u8, String>));
     v.push(entry!(Pair<Nat, Pair<Int, u8>>));
+    // type tables with more than 64 entries: references to entries 64.. take two bytes of signed LEB128
+    v.push(entry!(W64<W4<Vec<u16>>>));
+    v.push(entry!((W64<Option<u8>>, List)));
+    v.push(entry!(Generic<W64<Nat>, Shape>));
+    v.push(entry!(Vec<W64<W16<Point>>>));
     v.push(entry!((u8, String, Vec<Int>)));
     v.push(entry!((Nat,)));
     v.push(entry!(Callback));
